@@ -12,10 +12,11 @@ pub fn in_range(x: f64) -> bool {
         return false;
     }
     let a = x.abs();
-    // 16^-64 = 2^-256 <= |x| < 16^63 = 2^252, decided on the exponent field
+    // the normalised reals span 16^-65 = 2^-260 (mantissa 1/16 at exponent byte 0) <= |x| < 16^63 = 2^252;
+    // decided on the exponent field
     let e = ((a.to_bits() >> 52) & 0x7ff) as i64 - 1023;
     let subnormal = (a.to_bits() >> 52) & 0x7ff == 0;
-    !subnormal && e >= -256 && e < 252
+    !subnormal && e >= -260 && e < 252
 }
 
 /// The unique normalised encoding of an in-range double (exact: 53 significant bits plus a
